@@ -318,8 +318,57 @@ let run_mv base full t =
         (res_s fmt m, "ok " ^ fmt sp)
   | _ -> run_case0 (base ^ (if full then "_full" else "")) t
 
+(* "_sw" / "_sw_full": element type with its OWN swap (a table slot: the id stays in place, the payload travels; coq/C06a/ModelSwap.v).
+   iter_swap / reverse / swap_ranges / partition: the swap-parameterised loops run with the slot swap `uswap` - payloads, number
+   of swaps (`S k`, where the standard fixes it) and IDS-MOVED if an id left its position.  The other swap-built algorithms
+   (rotate, stable_partition, gnome/bubble/exchange sort and what is built on them): the payloads are those of the whole-element
+   model and no id may move (the harness prints IDS-MOVED if one does). *)
+let run_sw base full t =
+  let slots l = List.mapi (fun i x -> (i, x)) l in
+  let ids_tok l sl' = if List.map fst sl' = List.mapi (fun i _ -> i) l then "" else " IDS-MOVED" in
+  let pay sl' = List.map snd sl' in
+  match base with
+  | "iter_swap" ->
+      let i = next_int t in let j = next_int t in let l = next_zlist t in
+      let fmt sl' = zl (pay sl') ^ " S 1" ^ ids_tok l sl' in
+      let sp = List.mapi (fun k x -> if k = i then List.nth l j else if k = j then List.nth l i else x) l in
+      (res_s fmt (iter_swap_sw uswap (slots l) (nat_of_int i) (nat_of_int j)), "ok " ^ zl sp ^ " S 1")
+  | "reverse_ra" | "reverse_bidi" | "reverse_rev" ->
+      let f = next_int t in let n = next_int t in let l = next_zlist t in
+      let len = List.length l in
+      let fmt (sl', c) = zl (pay sl') ^ " S " ^ nat_s c ^ ids_tok l sl' in
+      let m =
+        if base = "reverse_ra" then reverse_ra_sw uswap (slots l) (nat_of_int f) (nat_of_int n)
+        else if base = "reverse_bidi" then reverse_bidi_sw uswap (slots l) (nat_of_int f) (nat_of_int n)
+        else (match reverse_ra_sw uswap (List.rev (slots l)) (nat_of_int (len - n)) (nat_of_int (len - f)) with
+              | Ok (sl', c) -> Ok (List.rev sl', c) | Contract -> Contract | UB u -> UB u | OutOfFuel -> OutOfFuel) in
+      (res_s fmt m, "ok " ^ zl (reverse_spec l (nat_of_int f) (nat_of_int n)) ^ " S " ^ string_of_int ((n - f) / 2))
+  | "swap_ranges" | "swap_ranges_fwd" | "swap_array" ->
+      let l1 = next_zlist t in let l2 = next_zlist t in
+      let fmt ((a, b), c) =
+        string_of_int (List.length a) ^ " " ^ zl (pay a) ^ " " ^ zl (pay b) ^ ids_tok l2 b ^ " S " ^ nat_s c ^ ids_tok l1 a in
+      let fmts (a, b) = string_of_int (List.length a) ^ " " ^ zl a ^ " " ^ zl b ^ " S " ^ string_of_int (List.length l1) in
+      (res_s fmt (swap_ranges_slots (slots l1) (slots l2) O),
+       if List.length l2 >= List.length l1 then "ok " ^ fmts (swap_ranges_spec l1 l2) else "na")
+  | "partition" | "partition_fwd" ->
+      let id = next_z t in let l = next_zlist t in
+      let p = pred_of id in
+      let fmt (sl', r) =
+        let l' = pay sl' in
+        let k = int_of_nat r in
+        if full then nat_s r ^ " " ^ zl l' ^ ids_tok l sl'
+        else
+          let okp = List.for_all p (take k l') && not (List.exists p (drop k l')) in
+          nat_s r ^ " " ^ b2s okp ^ " " ^ b2s (is_perm l' l) ^ ids_tok l sl' in
+      (res_s fmt (partition_sw uswap (fun s -> p (snd s)) (slots l)),
+       if full then "na" else "ok " ^ nat_s (partition_point_spec p l) ^ " 1 1")
+  | _ -> run_case0 (base ^ (if full then "_full" else "")) t
+
 let run_case op t =
   let op = strip_truth op in
+  let (ops, sfull) = strip_suffix "_full" op in
+  let (sbase, issw) = strip_suffix "_sw" ops in
+  if issw then run_sw sbase sfull t else
   let (opm, mfull) = strip_suffix "_full" op in
   let (base, ismv) = strip_suffix "_mv" opm in
   if ismv then run_mv base mfull t else run_case0 op t
